@@ -53,7 +53,7 @@ import (
 	kit "verifkit"
 )
 
-const c33Rule = "all sequences over {up, down, unknown} of length 0..N (N=6 quick) x {active, passive} interface x mode {plain, timers, nbr, timers+nbr}; after every event: recovered panic / mutex / deadlock check at a quiescent point, and while the link is up on an active interface: hello on the current ethernet handle per tick and adjacency Up after a neighbour's three-way hello. Non-trivial: the sequence contains >= 2 transitions to up."
+const c33Rule = "all sequences over {up, down, unknown} of length 0..N (N=6 quick) x {active, passive} interface x mode {plain, timers, nbr, timers+nbr, events while a hello is built, first multicast join fails, address configured after the carrier}; after every event: recovered panic / mutex / deadlock check at a quiescent point, and while the link is up on an active interface: hello on the current ethernet handle per tick and adjacency Up after a neighbour's three-way hello. Non-trivial: the sequence contains >= 2 transitions to up."
 
 const c33RealDeadline = 120 * time.Second
 
@@ -441,7 +441,10 @@ type c33Case struct {
 	midHello bool
 	// joinFault: the multicast join of the first ethernet handle fails (that link up does not bring the interface up)
 	joinFault bool
-	seq       []int
+	// lateAddr: every link-up is reported twice, first without any address on the interface (the carrier is
+	// there before the address is configured), then with the address, the link staying up
+	lateAddr bool
+	seq      []int
 }
 
 func (c c33Case) String() string {
@@ -461,6 +464,9 @@ func (c c33Case) String() string {
 	}
 	if c.joinFault {
 		k += " joinfault"
+	}
+	if c.lateAddr {
+		k += " lateaddr"
 	}
 	return fmt.Sprintf("%s timers=%v nbr=%v seq=[%s]", k, c.timers, c.nbr, sb.String())
 }
@@ -791,6 +797,14 @@ func c33RunCase(cs c33Case) *c33Violation {
 			r.up = !willFault
 		}
 		r.linkUp = e == c33EvUp
+		if cs.lateAddr && e == c33EvUp {
+			bare := &c33Dev{oper: c33EvOper[e]}
+			if v = r.step("DeviceUpdate", what+" (no address yet)", func() { r.client.DeviceUpdate(bare) }); v != nil {
+				v.text = fmt.Sprintf("after event %d (%s without address): %s", i, c33EvName[e], v.text)
+				return v
+			}
+			what += " (now with the address)"
+		}
 		if v = r.step("DeviceUpdate", what, func() { r.client.DeviceUpdate(dev) }); v != nil {
 			v.text = fmt.Sprintf("after event %d (%s): %s", i, c33EvName[e], v.text)
 			return v
@@ -899,8 +913,8 @@ func c33Transitions(seq []int) int {
 }
 
 type c33Mode struct {
-	passive, timers, nbr, started, midHello, joinFault bool
-	maxLen                                             int // 0: the enumeration's default
+	passive, timers, nbr, started, midHello, joinFault, lateAddr bool
+	maxLen                                                       int // 0: the enumeration's default
 }
 
 func c33Enumerate(t *testing.T, maxLen int, modes []c33Mode) {
@@ -922,7 +936,7 @@ func c33Enumerate(t *testing.T, maxLen int, modes []c33Mode) {
 			if k%shards != shard {
 				continue
 			}
-			cs := c33Case{passive: m.passive, timers: m.timers, nbr: m.nbr, started: m.started, midHello: m.midHello, joinFault: m.joinFault, seq: seq}
+			cs := c33Case{passive: m.passive, timers: m.timers, nbr: m.nbr, started: m.started, midHello: m.midHello, joinFault: m.joinFault, lateAddr: m.lateAddr, seq: seq}
 			if filter != "" && !strings.Contains(cs.String(), filter) {
 				continue
 			}
@@ -970,6 +984,8 @@ func TestVerifC33Exhaustive(t *testing.T) {
 		// schedule: events delivered while the hello sender is inside p2pHello(); fault: first multicast join fails
 		{midHello: true, maxLen: kit.Scale(4, 5)}, {midHello: true, nbr: true, maxLen: kit.Scale(4, 5)},
 		{joinFault: true, maxLen: kit.Scale(5, 6)}, {joinFault: true, timers: true, nbr: true, maxLen: kit.Scale(5, 6)},
+		// the address arrives after the carrier
+		{lateAddr: true, maxLen: kit.Scale(5, 6)}, {lateAddr: true, timers: true, nbr: true, maxLen: kit.Scale(4, 5)},
 	})
 }
 
